@@ -297,6 +297,13 @@ type History struct {
 	Earlier *world.SPSpec `json:"earlier_registration,omitempty"`
 	Removed bool          `json:"deregistered_afterwards,omitempty"`
 	Warmups []string      `json:"warmups,omitempty"` // sso | attrquery | logout | metadata
+	// ReuseID: the warm-up AuthnRequests carry this ID (the one of the request under test: IDs are chosen by service providers,
+	// nothing makes them unique across providers or over time); WarmupByOther: they are sent by the next service provider.
+	ReuseID       string `json:"reuse_id,omitempty"`
+	WarmupByOther bool   `json:"warmup_by_other_sp,omitempty"`
+	// BrokenAfter > 0: the user agents of the warm-up requests went away while their replies were being written: every
+	// warm-up reply breaks after that many body bytes.
+	BrokenAfter int `json:"warmup_replies_break_after,omitempty"`
 }
 
 // buildWithHistory builds the world of spec and plays the history on it.
@@ -310,7 +317,11 @@ func buildWithHistory(spec world.Spec, h *History, host string) *world.World {
 		first.SPs[h.SP] = *h.Earlier
 	}
 	w := mustBuild(first)
-	playWarmups(w, first, h.SP, host, h.Warmups)
+	by := h.SP
+	if h.WarmupByOther {
+		by = (h.SP + 1) % len(first.SPs)
+	}
+	playWarmups(w, first, by, host, h.Warmups, h.ReuseID, h.BrokenAfter)
 	switch {
 	case h.Removed:
 		w.Store.RemoveSP(spec.SPs[h.SP].EntityID)
@@ -324,14 +335,18 @@ func buildWithHistory(spec world.Spec, h *History, host string) *world.World {
 }
 
 // playWarmups sends valid requests of service provider sp (signed with its registered key when the configuration asks for it).
-func playWarmups(w *world.World, spec world.Spec, sp int, host string, kinds []string) {
+func playWarmups(w *world.World, spec world.Spec, sp int, host string, kinds []string, reuseID string, brokenAfter int) {
 	s := spec.SPs[sp]
 	wr := func(n *xt.Node) []byte { return xt.Write(n, plainStyle.W) }
 	for i, k := range kinds {
 		var hr obs.HTTPReq
 		switch k {
 		case "sso":
-			a := spsim.NewAuthnReq(fmt.Sprintf("_warmup-%d", i), s.EntityID)
+			id := fmt.Sprintf("_warmup-%d", i)
+			if reuseID != "" {
+				id = reuseID
+			}
+			a := spsim.NewAuthnReq(id, s.EntityID)
 			tree := a.Tree(plainStyle)
 			if signingRequired(spec, sp) && len(s.KeyNames) > 0 {
 				if err := spsim.SignTree(tree, spsim.Signing{Alg: world.AlgRSASHA256, KeyName: s.KeyNames[0], KeyInfo: true, CertLayout: "plain", DSPrefix: "ds"}); err != nil {
@@ -339,6 +354,12 @@ func playWarmups(w *world.World, spec world.Spec, sp int, host string, kinds []s
 				}
 			}
 			hr, _, _ = spsim.Encode(spec.IdP.Route("sso"), wr(tree), spsim.Transport{Binding: "post", Plus: true, Encoding: A, RelayState: "warmup"}, nil)
+		case "sso-refused":
+			// refused after the consumer service was selected: the failure reply is a page / redirect for the registered endpoint
+			a := spsim.NewAuthnReq(fmt.Sprintf("_warmupr-%d", i), s.EntityID)
+			a.Destination = "https://elsewhere.example/not-this-idp"
+			a.ProtocolBinding = world.BindPost
+			hr, _, _ = spsim.Encode(spec.IdP.Route("sso"), wr(a.Tree(plainStyle)), spsim.Transport{Binding: "post", Plus: true, Encoding: A, RelayState: "warmup-relaystate-" + strings.Repeat("w", 300)}, nil)
 		case "attrquery":
 			q := spsim.NewAttrQuery(fmt.Sprintf("_warmupq-%d", i), s.EntityID, "login0@users.example")
 			hr, _, _ = spsim.Encode(spec.IdP.Route("attribute"), wr(spsim.Envelope(q.QueryTree(plainStyle), "soap")), spsim.Transport{Binding: "soap"}, nil)
@@ -349,6 +370,7 @@ func playWarmups(w *world.World, spec world.Spec, sp int, host string, kinds []s
 			hr = obs.HTTPReq{Method: "GET", Path: spec.IdP.Route("metadata")}
 		}
 		hr.Host = host
+		hr.FailWriteAfter = brokenAfter
 		obs.Do(w.Handler, hr)
 	}
 }
